@@ -81,10 +81,30 @@ Definition str_prefix (l : lang) := match l with LC => c_str_prefix | LGo => go_
 Definition str_suffix (l : lang) := match l with LC => c_str_suffix | LGo => go_str_suffix | LPy => py_str_suffix end.
 Definition bool_true (l : lang) := match l with LC => c_bool_true | LGo => go_bool_true | LPy => py_bool_true end.
 Definition bool_false (l : lang) := match l with LC => c_bool_false | LGo => go_bool_false | LPy => py_bool_false end.
+Definition str_escaped (l : lang) := match l with LC => c_str_escaped | LGo => go_str_escaped | LPy => py_str_escaped end.
+
+(* Formatter.escape_str_value (table, control-character condition and prefix translated, T0):
+   a character of the table is replaced; a control character becomes <prefix> + "{0:03o}" of its
+   code (exactly three octal digits below 512); anything else is written as it is *)
+Fixpoint lookup_rep (c : Z) (tbl : list (Z * list Z)) : option (list Z) :=
+  match tbl with
+  | [] => None
+  | (k, r) :: t => if c =? k then Some r else lookup_rep c t
+  end.
+Definition octal3 (c : Z) : text := [48 + c / 64; 48 + (c / 8) mod 8; 48 + c mod 8].
+Definition esc_char (c : Z) : text :=
+  match lookup_rep c str_escapes with
+  | Some r => r
+  | None => if str_ctrl c then str_ctrl_prefix ++ octal3 c else [c]
+  end.
+
+(* format_str_value: "<pre>{0}<suf>".format(self.escape_str_value(value)), or the value verbatim
+   when the formatter does not call the helper (str_escaped = false) *)
+Definition format_str (l : lang) (s : text) : text :=
+  str_prefix l ++ (if str_escaped l then flat_map esc_char s else s) ++ str_suffix l.
 
 (* "<pre>{0}<suf>".format(value) *)
 Definition format_int (l : lang) (z : Z) : text := int_prefix l ++ dec_text z ++ int_suffix l.
-Definition format_str (l : lang) (s : text) : text := str_prefix l ++ s ++ str_suffix l.
 Definition format_bool (l : lang) (b : bool) : text := if b then bool_true l else bool_false l.
 
 Inductive cvalue := VInt (z : Z) | VBool (b : bool) | VStr (s : text).
@@ -122,9 +142,11 @@ Definition emit_const (l : lang) (name : text) (v : cvalue) : text :=
               if k =? 0 then t else if k =? 1 then name else if k =? 2 then type_name l v
               else format_value l v) (const_template l).
 
-(* the proposed fix for str-escape (see corpus/C13/str_escape_*.json): one escaping valid in all
-   three languages; control characters as exactly three octal digits *)
-Definition esc_char (c : Z) : text :=
+(* SPECIFICATION of an escaping that is valid in all three languages (written independently of the
+   source; ConstLitProofs.esc_char_is_std compares the translated helper with it): backslash,
+   double quote, LF, CR, TAB by their two-character escapes, other control characters as exactly
+   three octal digits *)
+Definition esc_char_std (c : Z) : text :=
   if c =? 92 then [92; 92]
   else if c =? 34 then [92; 34]
   else if c =? 10 then [92; 110]
@@ -132,7 +154,7 @@ Definition esc_char (c : Z) : text :=
   else if c =? 9 then [92; 116]
   else if (c <? 32) || (c =? 127) then [92; 48 + c / 64; 48 + (c / 8) mod 8; 48 + c mod 8]
   else [c].
-Definition format_str_fixed (s : text) : text := 34 :: flat_map esc_char s ++ [34].
+Definition format_str_fixed (s : text) : text := 34 :: flat_map esc_char_std s ++ [34].
 
 (* ------------------------------------------------------------------------------------ *)
 (* integer and boolean readers                                                           *)
